@@ -18,6 +18,17 @@ for d in $DIRS; do
     rule=$(echo "$out" | grep -m1 -o "violation of rule [A-Za-z0-9_.]*" | sed 's/violation of rule //')
     if [ $rc -eq 1 ]; then CAUGHT="$CAUGHT $c($rule)"; else MISSED="$MISSED $c(rc=$rc)"; fi
   done
+  if [ -z "$CAUGHT" ] && [ -n "${RETRY_SEEDS:-}" ]; then
+    # not caught at the default seed: try other seeds (recorded as such, e.g. C19(rule@seed2))
+    for sd in $RETRY_SEEDS; do
+      for c in $checks; do
+        out=$(VERIF_SEED=$sd ./check $c quick 2>&1); rc=$?
+        rule=$(echo "$out" | grep -m1 -o "violation of rule [A-Za-z0-9_.]*" | sed 's/violation of rule //')
+        if [ $rc -eq 1 ]; then CAUGHT="$CAUGHT $c($rule@seed$sd)"; fi
+      done
+      [ -n "$CAUGHT" ] && break
+    done
+  fi
   git -C /repo checkout -- .
   rm -f replays/*.json
   echo "$d: caught_by=$CAUGHT missed_by=$MISSED"
